@@ -8,7 +8,7 @@ from pv.canon import B, outcome
 ID = "C12"
 COQ_REQUIRE = "C12.Run"
 SHARD = 120
-MODEL_CFG = os.environ.get("C12_MODEL_CFG", "cur")   # Gallina constant: "cur" = code as it is now, "repaired" = notes/fixes/C12-*.diff applied
+MODEL_CFG = os.environ.get("C12_MODEL_CFG", "now")   # Gallina constant: "now" = code as it is in /repo, "before_fix" = before commits 46827e5 / 76627f6
 RULE = ("kernel-shaped inputs drawn from the theorem's domain and printed by the Coq kernel printers: argument vectors "
         "(0-6 args built from atoms: empty, spaces, '=', '/', tabs, newlines, CR/CRLF, valid and invalid UTF-8) and overwritten "
         "titles (space-separated words, no/space/NUL terminator), zombie flag; environment blocks (NAME=value / '='-less / "
@@ -24,7 +24,7 @@ TRUSTED = ["correspondence harness props/C12.py + pv/ (fake /proc tree; os.readl
            "formats of /proc/<pid>/cmdline, environ, exe, cwd and stat comm (proc(5)) transcribed in coq/C12/Spec.v",
            "hand-written model coq/C12/Model.v, UTF-8/surrogateescape decoder and universal-newline reader coq/C12/Lib.v "
            "(tied to the code by the correspondence run only)"]
-ASSUMPTIONS = ["CPython semantics of str.split/find/endswith/startswith, text-mode open() (utf-8, surrogateescape, newline=None), "
+ASSUMPTIONS = ["CPython semantics of str.split/find/endswith/startswith, text-mode open() (utf-8, surrogateescape, newline=\"\" for cmdline/environ), "
                "os.path.basename/isabs/isfile and dict are modelled, not verified",
                "searching a surrogateescape-decoded str for NUL, ' ', '=', '/' equals searching the bytes (sampled with invalid UTF-8)",
                "the filesystem encoding is utf-8 with surrogateescape (checked by the worker at start)",
@@ -233,7 +233,7 @@ UDEC_ALPHA = [0x41, 0x7f, 0x80, 0xbf, 0xc0, 0xc1, 0xc2, 0xc3, 0xa9, 0xdf, 0xe0, 
 
 
 def gen_cases(rng, tier):
-    n = {"quick": 170, "thorough": 4000, "search": 400}[tier]
+    n = {"quick": 400, "thorough": 5000, "search": 400}[tier]
     cases = []
     if tier != "search":
         ex = [b"", b"a", b" ", b"a b", b"a "]
@@ -382,19 +382,11 @@ def coq_struct(case, raw):
     raise ValueError(k)
 
 
-# ------------------------------------------------------------------ known-finding classes (computed from the input)
+# ------------------------------------------------------------------ known-finding classes
 def finding_key(case, coq):
-    k = case["kind"]
-    if k == "cmd" and _has_cr_cmd(case["cmd"]):
-        return "text-read-translates-cr"
-    if k == "env" and any(b"\r" in unh(x) for it in case["items"] for x in it[1:]):
-        return "text-read-translates-cr"
-    if k in ("exe", "name") and _has_cr_cmd(case["r"]["cmd"]):
-        return "text-read-translates-cr"
-    if k == "name":
-        comm = unh(case["r"]["comm"])
-        if len(comm) == 15 and max(comm) >= 0x80:
-            return "name-15-bytes-non-ascii"
+    """No known-finding class is left for C12: both defects this check found (CR/CRLF translated by the text-mode read of
+    cmdline/environ; 15-byte non-ASCII names not extended) were repaired in /repo (46827e5, 76627f6). Their inputs are in
+    corpus/C12 and are judged like any other case, so a revert is reported as a VIOLATION."""
     return None
 
 
@@ -594,9 +586,11 @@ MANIFEST = {
             "dictionary with unique keys whose lookup is the last entry of each NAME; exe()/cwd() return the dentry path for every "
             "linked/unlinked target with or without NUL garbage, '' for a withheld link of a live process, exe() falls back to an "
             "absolute executable cmdline()[0] and answers a second call from its cache whatever the kernel then says; name() is the kernel "
-            "name extended from cmdline()[0] at 15 bytes. Two refuted full-strength statements are kept with witnesses (CR/CRLF translated "
-            "to LF by the text-mode read of cmdline/environ; 15-byte non-ASCII names not extended) and the same theorems are proved without "
-            "exclusion for the repaired configuration. The model is tied to the code by running both on generated and exhaustive inputs.",
+            "name extended from cmdline()[0] at 15 bytes, whatever bytes it contains. All of this is proved for the code as it is now, "
+            "without exclusions. The two statements this check first refuted (CR/CRLF translated to LF by the text-mode read of "
+            "cmdline/environ; 15-byte non-ASCII names not extended; both repaired in /repo, 46827e5 and 76627f6) are kept as refuted "
+            "theorems about the old configuration and their inputs are replayed from the corpus on every run. "
+            "The model is tied to the code by running both on generated and exhaustive inputs.",
     "note": "Trusted: Coq kernel + vm_compute; hand-written model coq/C12/Model.v and text layer coq/C12/Lib.v (tied by the correspondence "
             "run only); kernel formats in coq/C12/Spec.v; harness (fake /proc, os.readlink/os.stat/os.access/open patches); CPython builtins. "
             "Proof covers the model, sampling covers model-vs-code.",
